@@ -277,4 +277,50 @@ theorem lastCentre_stable (thr : Rat) (img : Image) (mask : List (List Nat)) (ra
   | succ j ih =>
     rw [← Nat.add_assoc, lastCentre_succ, ih, if_pos h]
 
+
+/-! ## each iteration moves the mask by at most one pixel per axis -/
+
+theorem moveAxis_near (thr o : Rat) (c : Int) :
+    c - 1 ≤ moveAxis thr o c ∧ moveAxis thr o c ≤ c + 1 := by
+  unfold moveAxis
+  split_ifs <;> omega
+
+theorem clipAxis_near (r sh : Nat) (x c : Int)
+    (hc : (r : Int) ≤ c ∧ c ≤ (sh : Int) - 1 - (r : Int)) (hx : c - 1 ≤ x ∧ x ≤ c + 1) :
+    c - 1 ≤ clipAxis r sh x ∧ clipAxis r sh x ≤ c + 1 := by
+  unfold clipAxis
+  rw [min_def, max_def]
+  split_ifs <;> omega
+
+theorem next_near (thr : Rat) (radius shape : List Nat) (oc : List Rat) (c : List Int)
+    (h : Inside radius shape c) (i : Nat) (hi : i < radius.length) :
+    c.getD i 0 - 1 ≤ (next thr radius shape oc c).getD i 0 ∧
+    (next thr radius shape oc c).getD i 0 ≤ c.getD i 0 + 1 := by
+  rw [next_getD _ _ _ _ _ _ hi]
+  exact clipAxis_near _ _ _ _ (h.2.2 i hi) (moveAxis_near _ _ _)
+
+theorem lastCentre_near (thr : Rat) (img : Image) (mask : List (List Nat)) (radius shape : List Nat)
+    (k : Nat) (c : List Int) (h : Inside radius shape c) (i : Nat) (hi : i < radius.length) :
+    c.getD i 0 - k ≤ (lastCentre thr img mask radius shape k c).getD i 0 ∧
+    (lastCentre thr img mask radius shape k c).getD i 0 ≤ c.getD i 0 + k := by
+  induction k generalizing c with
+  | zero => simp [lastCentre]
+  | succ k ih =>
+    rw [lastCentre]
+    split
+    · constructor <;> push_cast <;> omega
+    · have h1 := next_near thr radius shape (offCentre img mask radius c) c h i hi
+      have h2 := ih _ (next_inside thr radius shape (offCentre img mask radius c) c h)
+      constructor <;> push_cast <;> omega
+
+/-! ## the ellipse test in cross-multiplied integer form (2-D) -/
+
+theorem ellipse_cross (x y a b : Rat) (ha : 0 < a) (hb : 0 < b) :
+    x / a * (x / a) + (y / b * (y / b) + 0) ≤ 1 ↔ x * x * (b * b) + y * y * (a * a) ≤ a * a * (b * b) := by
+  have ha2 : 0 < a * a := mul_pos ha ha
+  have hb2 : 0 < b * b := mul_pos hb hb
+  rw [add_zero, div_mul_div_comm, div_mul_div_comm, div_add_div _ _ (ne_of_gt ha2) (ne_of_gt hb2),
+    div_le_iff₀ (mul_pos ha2 hb2), one_mul]
+  constructor <;> intro h <;> linarith
+
 end TrackpyV.Refine
